@@ -87,6 +87,7 @@ class Prop:
     CASE_TIMEOUT = 60
     MAX_WORKERS = NCPU
     COQ_SHARD = 400
+    CASES_PER_WORKER = 20
 
     # -- to be provided by the property module ------------------------------------------------
     def gen(self, rng: random.Random, tier: str):
@@ -172,7 +173,7 @@ def run_worker(pid: str, cases: list, timeout: float, case_timeout: float):
 def run_impl(prop: Prop, cases: list):
     if not cases:
         return []
-    nshards = max(1, min(prop.MAX_WORKERS, (len(cases) + 19) // 20))
+    nshards = max(1, min(prop.MAX_WORKERS, -(-len(cases) // max(1, prop.CASES_PER_WORKER))))
     shards = [cases[i::nshards] for i in range(nshards)]
     with ThreadPoolExecutor(nshards) as ex:
         res = list(ex.map(lambda sh: run_worker(prop.ID, sh, prop.SHARD_TIMEOUT, prop.CASE_TIMEOUT), shards))
